@@ -147,3 +147,70 @@ def _(self: Obj['rbql_engine.StrictLeftJoiner'], lhs_key: JKey) -> List[Tuple[Op
     ensures(hjm_built(self.join_map) and self.kind == 2 and self.jmv == self.join_map.jm and self.jmv == old(self.jmv), 'inv_kept')
     raises('rbql_engine.RbqlRuntimeError', len(self.jmv[lhs_key]) != 1, 'fails_unless_exactly_one_match')
     modifies(self.join_map.hash_map)
+
+
+# ---------------------------------------------------------------- building the hash map from the B table
+@contract('rbql_engine.HashJoinMap.__init__', name='C04.map.init', props=['C04'], store_policy='none')
+def _(self: Obj['rbql_engine.HashJoinMap'], record_iterator: Obj['rbql_engine.RBQLInputIterator'], key_indices: List[Int]):
+    requires(len(key_indices) >= 1 and forall(Int, lambda i: implies(0 <= i and i < len(key_indices), contents(key_indices)[i] >= -1)), 'key_indices_are_fields_or_the_record_number')
+    ghost_update(self.kidx, contents(key_indices))
+    ensures((hjm_single(self) and self.polymorphic_get_key == mtag('get_single_key')) or (hjm_multi(self) and self.polymorphic_get_key == mtag('get_multi_key')), 'key_mode')
+    ensures(self.kidx == contents(key_indices) and same(self.record_iterator, record_iterator), 'configured')
+    ensures(self.max_record_len == 0 and len(keys(self.hash_map)) == 0 and is_fresh(self.hash_map)
+            and forall(JKey, lambda k: not has_key(self.hash_map, k)), 'empty_map')
+    modifies(self)
+
+
+@pred
+def src_list_ok(L, V):
+    # match_list_ok for records that are source rows of the B table (the stronger fact that holds while building)
+    return (len(L) == len(V)
+            and forall(Int, lambda i: implies(0 <= i and i < len(L), L[i][0] == V[i][0] and L[i][1] == V[i][1] and contents(L[i][2]) == V[i][2] and is_src(L[i][2]))))
+
+
+@pred
+def hjm_upto(self, rows, n):
+    # the buckets hold exactly the first n records of the B table, by key, in B order
+    return (forall(JKey, lambda k: implies(has_key(self.hash_map, k), allocated(self.hash_map[k]) and not is_owned_below(self.hash_map[k])))
+            and forall(JKey, lambda k: implies(has_key(self.hash_map, k), src_list_ok(contents(self.hash_map[k]), bucket(rows, self.kidx, k, n))), trigger=[self.hash_map[k]])
+            and forall(JKey, lambda k: implies(not has_key(self.hash_map, k), len(bucket(rows, self.kidx, k, n)) == 0))
+            and forall(JKey, JKey, lambda k1, k2: implies(has_key(self.hash_map, k1) and has_key(self.hash_map, k2) and k1 != k2, not same(self.hash_map[k1], self.hash_map[k2])))
+            and self.max_record_len == max_width(rows, n))
+
+
+@contract('rbql_engine.HashJoinMap.build', name='C04.map.build', props=['C04', 'C14', 'C06'], store_policy='none')
+def _(self: Obj['rbql_engine.HashJoinMap']):
+    requires((hjm_single(self) and self.polymorphic_get_key == mtag('get_single_key')) or (hjm_multi(self) and self.polymorphic_get_key == mtag('get_multi_key')), 'key_mode')
+    requires(self.record_iterator.pos == 0 and self.max_record_len == 0 and forall(JKey, lambda k: not has_key(self.hash_map, k)), 'fresh_map_and_iterator')
+    # ghost definition (conservative extension): jm names the buckets of the whole B table
+    assumes(forall(JKey, lambda k: self.jm[k] == bucket(self.record_iterator.rows, self.kidx, k, len(self.record_iterator.rows))), 'ghost-def: jm is the bucketing of the B table by key')
+    loop_types(0, fields=Opt[List[Cell]], nf=Int, key=JKey)
+    invariant(0, same(self.record_iterator, old(self.record_iterator)) and same(self.hash_map, old(self.hash_map)) and self.record_iterator.rows == old(self.record_iterator.rows)
+              and self.kidx == old(self.kidx) and self.jm == old(self.jm)
+              and ((hjm_single(self) and self.polymorphic_get_key == mtag('get_single_key')) or (hjm_multi(self) and self.polymorphic_get_key == mtag('get_multi_key'))), 'config')
+    invariant(0, nr == self.record_iterator.pos and 0 <= nr and nr <= len(self.record_iterator.rows), 'nr_is_position')
+    invariant(0, hjm_upto(self, self.record_iterator.rows, nr), 'buckets_of_the_records_read')
+    invariant(0, first_short_row(self.record_iterator.rows, self.kidx, nr) == -1, 'no_short_record_so_far')
+    # the record just read goes to the bucket of its key and to no other
+    loop_hint(0, implies(not is_none(fields), key == jkey_of(nr, self.record_iterator.rows[nr - 1], self.kidx) and contents(fields) == self.record_iterator.rows[nr - 1]), 'key_of_the_record_read')
+    loop_hint(0, implies(not is_none(fields), bucket(self.record_iterator.rows, self.kidx, key, nr) == bucket(self.record_iterator.rows, self.kidx, key, nr - 1) + [tup(some(nr), len(fields), contents(fields))]), 'own_bucket_grows_by_the_record')
+    loop_hint(0, implies(not is_none(fields), forall(JKey, lambda k: implies(k != key, bucket(self.record_iterator.rows, self.kidx, k, nr) == bucket(self.record_iterator.rows, self.kidx, k, nr - 1)))), 'other_buckets_unchanged')
+    loop_hint(0, implies(not is_none(fields), forall(JKey, lambda k: implies(k != key and at_iter_start(has_key(self.hash_map, k)),
+                                                 not same(at_iter_start(self.hash_map[k]), self.hash_map[key])))), 'the_list_appended_to_belongs_to_no_other_key')
+    loop_hint(0, implies(not is_none(fields), forall(JKey, lambda k: implies(k != key, has_key(self.hash_map, k) == at_iter_start(has_key(self.hash_map, k))
+                                                 and implies(has_key(self.hash_map, k), same(self.hash_map[k], at_iter_start(self.hash_map[k]))
+                                                             and contents(self.hash_map[k]) == at_iter_start(contents(self.hash_map[k])))))), 'other_lists_untouched')
+    loop_hint(0, implies(not is_none(fields), has_key(self.hash_map, key)
+              and contents(self.hash_map[key]) == (at_iter_start(lambda k: contents(self.hash_map[k]), key) if at_iter_start(lambda k: has_key(self.hash_map, k), key) else empty(Tuple[Opt[Int], Int, Rec])) + [tup(some(nr), nf, fields)]), 'own_list_grows_by_the_record')
+    loop_hint(0, implies(not is_none(fields) and at_iter_start(lambda k: has_key(self.hash_map, k), key),
+                         src_list_ok(at_iter_start(lambda k: contents(self.hash_map[k]), key), bucket(self.record_iterator.rows, self.kidx, key, nr - 1))), 'own_list_denoted_its_bucket_before', hide=['bucket', 'jkey_of', 'jkeys', 'jcomp', 'max_width', 'first_short_row', 'first_bad_key'])
+    loop_hint(0, implies(not is_none(fields), src_list_ok(contents(self.hash_map[key]), bucket(self.record_iterator.rows, self.kidx, key, nr))), 'own_list_denotes_its_bucket', hide=['bucket', 'jkey_of', 'jkeys', 'jcomp', 'max_width', 'first_short_row', 'first_bad_key'])
+    loop_hint(0, implies(not is_none(fields), forall(JKey, lambda k: implies(k != key and has_key(self.hash_map, k), src_list_ok(contents(self.hash_map[k]), bucket(self.record_iterator.rows, self.kidx, k, nr))))), 'other_lists_denote_their_buckets')
+    # C04: after build every bucket is exactly the key-equal B records in B order; the null-record width is the longest B record
+    ensures(hjm_built(self), 'map_built')
+    ensures(self.max_record_len == max_width(self.record_iterator.rows, len(self.record_iterator.rows)), 'null_width_is_longest_record')
+    ensures(self.record_iterator.pos == len(self.record_iterator.rows), 'whole_table_read')
+    # C14: a B record that lacks a key field is reported with its number
+    raises('rbql_engine.RbqlRuntimeError', first_short_row(self.record_iterator.rows, self.kidx, self.record_iterator.pos) == self.record_iterator.pos - 1
+           and str_contains(exc_msg(), 'at record ' + str_of_int(self.record_iterator.pos) + ' in "B" table'), 'first_short_record_named')
+    modifies(field(self, 'max_record_len'), self.record_iterator, family('joiner'))
